@@ -46,6 +46,16 @@ def run(prog, rep):
     rep.expect_min("C05.generic", 5)
     from .purity import row as _stateless_row
     rep.part(_stateless_row, prog, rep, "C05", 10)
+    # "Passing parameter values explicitly to a call gives exactly the result of an instance constructed with those values": the
+    # constructor must store every value (plain or fixed) under the name the methods read - the constructor rows of C11, filed here too
+    from vstat.report import Relabel
+    from . import c11
+    ct = Relabel(rep, "C05.ctor", lambda r, inst: r == "C11.ctor" or (r == "C11.generic" and "__init__" in inst))
+    for fam in fams:
+        rep.part(c11.generic if fam.generic else c11.ctor, prog, ct, fam)
+    rep.expect_min("C05.ctor", 18)
+    rep.explanation += (" C05.ctor: the constructor rows of C11 - every parameter attribute is the f_ value where one is given and the plain argument otherwise, "
+                        "and a generic ScipyDistribution sets both the f_ attribute and the parameter.")
 
 # ---------------------------------------------------------------- paramflow
 def _none_links(pc):
